@@ -42,7 +42,13 @@ func genC12Case(r *Rand, form string, many bool) *Case {
 		c.Opts = Opts{RefID: "ref", AnnoSuffix: "gff", Start: -1, End: -1, AppendSNP: r.P(0.3), Aggregate: r.P(0.4), Threads: 1}
 		return c
 	case "topranking-csv":
-		return nil // built by the C09 machinery; added there
+		// csv query and target (the streaming csv reader and the csv query list), derived with simulated `updown list` runs
+		c := genCmdCase(r, "topranking", caseSize{many: many})
+		cc := toCSVCase(c)
+		if cc != nil && r.P(0.3) {
+			cc.Files["target"], cc.Opts.TType = c.Files["target"], "fasta"
+		}
+		return cc
 	}
 	return genCmdCase(r, form, caseSize{many: many})
 }
